@@ -31,6 +31,7 @@ VARIABLES
   leaders,   \* term -> set of nodes with leadership evidence
   lfirst,    \* set of <<node, term>> whose leadership start was already judged
   committed, \* index -> entry [t,k,v]  first time it was reported committed anywhere
+  cterm,     \* index -> term of the node that reported it committed first
   reqs,      \* rpc id -> the send event
   hpre,      \* rpc id -> [log, commit, term] of the destination at deliver time
   stat,      \* node -> last status event
@@ -55,7 +56,7 @@ VARIABLES
   rlast,     \* <<node, voter>> -> line of the last replication reply from that voter handed to the node
   bad        \* set of violation records
 
-vars == <<l, meta, dur, pstate, maxterm, votes, applied, cursor, leaders, lfirst, committed,
+vars == <<l, meta, dur, pstate, maxterm, votes, applied, cursor, leaders, lfirst, committed, cterm,
           reqs, hpre, stat, inv, wdone, rdone, retd, dead, mtrack, mwait, finals, healed, s5, hl, fsmc, taken, sopen, isidx, lastae, s7, vrep, rlast, bad>>
 
 -----------------------------------------------------------------------------
@@ -203,7 +204,10 @@ C07_Completeness ==
   IF ~NewLeader \/ Is("send") THEN {} ELSE
     LET n == LeadEv[1]
         lg == Log(n)     \* for the node's own no-op: the log before this event's append
-        missing == {i \in DOMAIN committed : i > lg.base /\ (~HasIdx(lg, i) \/ At(lg, i) # committed[i])} IN
+        \* entries committed in an EARLIER term (a node may still win an old term after a newer
+        \* leader has committed - its last vote was cast before the voter moved on; C07's "later"
+        \* is read as "of a later term", as in Raft's Leader Completeness: DESIGN.md 12.15)
+        missing == {i \in DOMAIN committed : Get(cterm, i, 0) < LeadEv[2] /\ i > lg.base /\ (~HasIdx(lg, i) \/ At(lg, i) # committed[i])} IN
     IF missing # {} THEN {V("C07", "LeaderCompleteness", <<n, LeadEv[2], missing>>)} ELSE {}
 
 \* nobody ever removes an entry that was reported committed (leader "never overwrites it";
@@ -800,7 +804,7 @@ Report(S) == \A b \in S : PrintT("MONITOR-BAD|" \o b.p \o "|" \o b.c \o "|" \o b
 Init ==
   /\ l = 1 /\ meta = [voters |-> <<>>, family |-> ""]
   /\ dur = <<>> /\ pstate = <<>> /\ maxterm = <<>> /\ votes = {} /\ applied = <<>> /\ cursor = <<>>
-  /\ leaders = <<>> /\ lfirst = {} /\ committed = <<>> /\ reqs = <<>> /\ hpre = <<>> /\ stat = <<>>
+  /\ leaders = <<>> /\ lfirst = {} /\ committed = <<>> /\ cterm = <<>> /\ reqs = <<>> /\ hpre = <<>> /\ stat = <<>>
   /\ inv = <<>> /\ wdone = {} /\ rdone = {} /\ retd = {} /\ dead = {} /\ mtrack = <<>> /\ mwait = <<>>
   /\ finals = <<>> /\ healed = FALSE /\ s5 = FALSE /\ hl = NoHealthy /\ fsmc = <<>> /\ taken = {} /\ sopen = <<>> /\ isidx = <<>> /\ lastae = <<>> /\ s7 = {} /\ vrep = <<>> /\ rlast = <<>> /\ bad = {}
 
@@ -823,6 +827,9 @@ Next ==
   /\ leaders' = NextLeaders
   /\ lfirst' = NextLfirst
   /\ committed' = NextCommitted
+  /\ cterm' = (IF Is("scenario") THEN <<>>
+              ELSE IF CommitReport # {} THEN [i \in DOMAIN cterm \cup {p[1] : p \in CommitReport} |-> IF i \in DOMAIN cterm THEN cterm[i] ELSE Ev.term]
+              ELSE cterm)
   /\ reqs' = NextReqs
   /\ hpre' = NextHpre
   /\ stat' = NextStat
